@@ -15,7 +15,7 @@ class SqlLexError(Exception):
 
 
 _WS = re.compile(r"\s+")
-_NUM = re.compile(r"\d+(?:\.\d+)?(?:[eE][+-]?\d+)?|\.\d+(?:[eE][+-]?\d+)?")
+_NUM = re.compile(r"\d+(?:\.\d+)?(?:[eE][+-]?\d+)?|\.\d+(?:[eE][+-]?\d+)?", re.ASCII)   # SQL digits are ASCII
 _WORD = re.compile(r"[A-Za-z_][A-Za-z_0-9$]*")
 _OPS = ["||", "!=", "<>", "<=", ">=", "=", "<", ">", "+", "-", "*", "/", "%"]
 
